@@ -26,9 +26,37 @@ def common():
     return _common
 
 
-def make_bpseq(triples):
+ROUTES = ["entries", "entries", "from_string", "from_string_crlf", "from_file", "from_dotbracket"]
+
+
+def make_bpseq(triples, route="entries", tmpdir=None):
+    """The structure as a live BpSeq, built through one of the package's constructors: the Entry list directly,
+    BPSEQ text (also with CRLF line ends, blank lines and trailing blanks), a BPSEQ file, or a dot-bracket of it
+    (the reference first-come-first-served notation).  All routes must give the same object."""
     c = common()
-    return c.BpSeq([c.Entry(int(i), str(ch), int(j)) for i, ch, j in triples])
+    if route == "entries" or not triples:
+        return c.BpSeq([c.Entry(int(i), str(ch), int(j)) for i, ch, j in triples])
+    text = "\n".join("%d %s %d" % (i, ch, j) for i, ch, j in triples)
+    if route == "from_string":
+        return c.BpSeq.from_string(text + "\n")
+    if route == "from_string_crlf":
+        return c.BpSeq.from_string("\r\n".join("%d %s %d  " % (i, ch, j) for i, ch, j in triples) + "\r\n\r\n")
+    if route == "from_file":
+        import os
+        import tempfile
+
+        fd, path = tempfile.mkstemp(suffix=".bpseq", dir=tmpdir)
+        with os.fdopen(fd, "w") as f:
+            f.write(text + "\n")
+        try:
+            return c.BpSeq.from_file(path)
+        finally:
+            os.unlink(path)
+    if route == "from_dotbracket":
+        n, pairs = oracles.pairs_of_triples(triples)
+        seq = oracles.sequence_of_triples(triples)
+        return c.BpSeq.from_dotbracket(c.DotBracket.from_string(seq, oracles.fcfs_ref(n, pairs)))
+    raise HarnessError("unknown construction route %r" % route)
 
 
 _CORPUS = {}
@@ -42,7 +70,7 @@ def corpus_dir():
     return os.path.join(os.path.dirname(src), "tests")
 
 
-def corpus_mapping(name):
+def corpus_mapping(name, find_gaps=False):
     """A fresh Mapping2D3D over a corpus file (parsing and 3D annotation cached per process; the mapping
     object itself, which memoises the notation, is new every time)."""
     import os
@@ -57,7 +85,7 @@ def corpus_mapping(name):
         bi = annotator.extract_base_interactions(s3d)
         _CORPUS[name] = (s3d, bi.basePairs, bi.stackings)
     s3d, bps, sts = _CORPUS[name]
-    return Mapping2D3D(s3d, bps, sts, False)
+    return Mapping2D3D(s3d, bps, sts, bool(find_gaps))
 
 
 _HEALTHY_ROWS = {}
@@ -76,13 +104,14 @@ def parse_extended(text, nstrands):
     return [[lw, dbn] for _, (lw, dbn) in sorted(rows.items())]
 
 
-def healthy_rows(env, name):
+def healthy_rows(env, name, find_gaps=False):
     """Which pairs every row of a corpus structure's extended dot-bracket stands for: decoded from the rows the
     code under test writes in a healthy world (stub solver, no fault).  The pairs of a row do not depend on the
     solver - only the bracket levels do - so under any fault every row must still decode to these pairs.  Computed
     once per process, outside the event log, with the simulated world restored afterwards."""
-    if name in _HEALTHY_ROWS:
-        return _HEALTHY_ROWS[name]
+    name_key = (name, bool(find_gaps))
+    if name_key in _HEALTHY_ROWS:
+        return _HEALTHY_ROWS[name_key]
     import pulp
 
     saved = (env.backend, env.highs_on_path, env.cbc_executable, env.faults, env.fault_cursor, env.secondary_fault,
@@ -91,7 +120,7 @@ def healthy_rows(env, name):
         try:
             solver = env.configure("sim-api", False, True, [{"kind": "ok", "tie": 0}])
             env.set_default(solver)
-            m = corpus_mapping(name)
+            m = corpus_mapping(name, find_gaps)
             rows = parse_extended(m.extended_dot_bracket, len(m.strands_sequences))
             out = [[lw, sorted(oracles.decode(row) or [])] for lw, row in rows]
         except (zero_one.NodeCap, zero_one.Unsupported):
@@ -102,7 +131,7 @@ def healthy_rows(env, name):
      env.highs_lookups_left, env.uuid_counter, default, nsolves) = saved
     pulp.LpSolverDefault = default
     del env.solves[nsolves:]
-    _HEALTHY_ROWS[name] = out
+    _HEALTHY_ROWS[name_key] = out
     return out
 
 
@@ -158,9 +187,9 @@ def execute_step(env, step):
     obs = {"raised": None, "db": None, "consumer": None, "discard": None}
     healthy = None
     if op in ("mapping_extended", "mapping_extract"):
-        healthy = healthy_rows(env, step["corpus"])
+        healthy = healthy_rows(env, step["corpus"], step.get("find_gaps", False))
     if op.startswith("mapping_"):
-        mapping = corpus_mapping(step["corpus"])
+        mapping = corpus_mapping(step["corpus"], step.get("find_gaps", False))
         bp = mapping.bpseq
         obs["triples"] = [[e.index_, e.sequence, e.pair] for e in bp.entries]
     elif step.get("object"):
@@ -169,10 +198,10 @@ def execute_step(env, step):
             env.objects = {}
         key = (step["object"], rng.digest(step["triples"])[:12])
         if key not in env.objects:
-            env.objects[key] = make_bpseq(step["triples"])
+            env.objects[key] = make_bpseq(step["triples"], step.get("route", "entries"), env.tmpdir)
         bp = env.objects[key]
     else:
-        bp = make_bpseq(step["triples"])
+        bp = make_bpseq(step["triples"], step.get("route", "entries"), env.tmpdir)
     events.log("op.invoke", [op, via, backend, fault.get("kind")])
     try:
         if op == "mapping_extract":
@@ -180,7 +209,8 @@ def execute_step(env, step):
             # dot-bracket and the extended dot-bracket of one mapping, i.e. several conversions under the fault
             from rnapolis import annotator
 
-            s2d, dbs = annotator.extract_secondary_structure(mapping.structure3d, None, False, False)
+            s2d, dbs = annotator.extract_secondary_structure(mapping.structure3d, None, bool(step.get("find_gaps", False)),
+                                                             bool(step.get("all_dot_brackets", False)))
             lines = s2d.dotBracket.split("\n")
             obs["db"] = ["".join(lines[1::3]), "".join(lines[2::3])]
             obs["triples"] = [[int(x.split()[0]), x.split()[1], int(x.split()[2])] for x in s2d.bpseq.split("\n")]
